@@ -96,7 +96,7 @@ package controller
 //@   modifies f.fan.(*fans.FileFan).Rpm, f.fan.(*fans.FileFan).Pwm, f.fan.(*fans.CmdFan).Rpm, f.fan.(*fans.CmdFan).Pwm
 //@   modifies f.controlLoop.(*control_loop.DirectControlLoop).lastTime
 //@   modifies each(*curves.LinearSpeedCurve).Value, each(*curves.FunctionSpeedCurve).Value, each(*curves.PidSpeedCurve).Value, lastAvgRead, lastValue, lastInterp, segLo, segHi, segHit, memberVals, memberCount
-//@   modifies each(*util.PidLoop).integral, each(*util.PidLoop).error, each(*util.PidLoop).lastTime, lastPidOut, lastCycleOut, procWorld, started, lastReadFailed, supportsResult
+//@   modifies each(*util.PidLoop).integral, each(*util.PidLoop).error, each(*util.PidLoop).lastTime, lastPidOut, pidSteps, lastCycleOut, procWorld, started, lastReadFailed, supportsResult
 
 //@ ghost var modeVerified gmap[int]bool
 //@ func trySetManualPwm
@@ -128,7 +128,7 @@ package controller
 //@   modifies f.fan.(*fans.FileFan).Rpm, f.fan.(*fans.FileFan).Pwm, f.fan.(*fans.CmdFan).Rpm, f.fan.(*fans.CmdFan).Pwm
 //@   modifies f.controlLoop.(*control_loop.DirectControlLoop).lastTime
 //@   modifies each(*curves.LinearSpeedCurve).Value, each(*curves.FunctionSpeedCurve).Value, each(*curves.PidSpeedCurve).Value, lastAvgRead, lastValue, lastInterp, segLo, segHi, segHit, memberVals, memberCount
-//@   modifies each(*util.PidLoop).integral, each(*util.PidLoop).error, each(*util.PidLoop).lastTime, lastPidOut, lastCycleOut, procWorld, started, lastReadFailed, supportsResult
+//@   modifies each(*util.PidLoop).integral, each(*util.PidLoop).error, each(*util.PidLoop).lastTime, lastPidOut, pidSteps, lastCycleOut, procWorld, started, lastReadFailed, supportsResult
 
 // ---- RPM monitor step and stall handling (C10) ---------------------------------------------------------
 //@ func (*DefaultFanController).measureRpm
@@ -220,6 +220,7 @@ package controller
 //@   requires[C16.sweep C16] serialised()
 //@   ensures[C15.config] old(cfgMap(f.fan)) != nil ==> err == nil && ref(f.pwmMap) == old(ref(*cfgMap(f.fan))) && pwmWrites == old(pwmWrites) && modeWrites == old(modeWrites)
 //@   ensures[C15.stored] old(cfgMap(f.fan)) == nil && mapLoadOK[old(mapLoadCount)] && mapLoadRes[old(mapLoadCount)] != 0 ==> err == nil && ref(f.pwmMap) == mapLoadRes[old(mapLoadCount)] && pwmWrites == old(pwmWrites) && modeWrites == old(modeWrites)
+//@   ensures[C15.persist] old(cfgMap(f.fan)) == nil && err == nil && !(mapLoadOK[old(mapLoadCount)] && mapLoadRes[old(mapLoadCount)] != 0) ==> dbHas["fanPwmMap"][persistence.fanId(f.fan)]
 //@   ensures f.fan == old(f.fan) && f.persistence == old(f.persistence) && persistence.dbWF() && initRuns == old(initRuns)
 //@   modifies f.pwmMap, each(map[int]int)[_], pwmWrites, lastPwm, lastPwmErr, modeWrites, lastMode, modeVerified, fileInt, procWorld, started, lastReadFailed, supportsResult, f.fan.(*fans.HwMonFan).Pwm, f.fan.(*fans.FileFan).Pwm, f.fan.(*fans.CmdFan).Pwm
 //@   modifies dbBucket, dbHas, dbVal, txBucket, txHas, txVal, decodeFailed, mapLoadCount, mapLoadOK, mapLoadRes
@@ -232,6 +233,7 @@ package controller
 //@   ensures[C16.balance C16] held == old(held) && unlocks <= old(unlocks) + 1 && unlocks >= old(unlocks)
 //@   ensures[C15.config] old(cfgMap(f.fan)) != nil ==> err == nil && ref(f.pwmMap) == old(ref(*cfgMap(f.fan))) && pwmWrites == old(pwmWrites) && modeWrites == old(modeWrites)
 //@   ensures[C15.stored] old(cfgMap(f.fan)) == nil && mapLoadOK[old(mapLoadCount)] && mapLoadRes[old(mapLoadCount)] != 0 ==> err == nil && ref(f.pwmMap) == mapLoadRes[old(mapLoadCount)] && pwmWrites == old(pwmWrites) && modeWrites == old(modeWrites)
+//@   ensures[C15.persist] old(cfgMap(f.fan)) == nil && err == nil && !(mapLoadOK[old(mapLoadCount)] && mapLoadRes[old(mapLoadCount)] != 0) ==> dbHas["fanPwmMap"][persistence.fanId(f.fan)]
 //@   ensures f.fan == old(f.fan) && f.persistence == old(f.persistence) && persistence.dbWF() && initRuns == old(initRuns)
 //@   modifies f.pwmMap, each(map[int]int)[_], pwmWrites, lastPwm, lastPwmErr, modeWrites, lastMode, modeVerified, fileInt, procWorld, started, lastReadFailed, supportsResult, f.fan.(*fans.HwMonFan).Pwm, f.fan.(*fans.FileFan).Pwm, f.fan.(*fans.CmdFan).Pwm
 //@   modifies dbBucket, dbHas, dbVal, txBucket, txHas, txVal, decodeFailed, mapLoadCount, mapLoadOK, mapLoadRes, held, unlocks
